@@ -481,3 +481,13 @@ func b1(b bool) []byte {
 	}
 	return []byte{0}
 }
+
+
+// noLeadingLF: yaml.v3 does not round-trip strings that begin with a line feed (known finding
+// "yaml-leading-newline"); ordinary generator profiles avoid them, a dedicated profile exercises exactly them.
+func noLeadingLF(b []byte) []byte {
+	for i := 0; i < len(b) && b[i] == '\n'; i++ {
+		b[i] = 'n'
+	}
+	return b
+}
